@@ -8,6 +8,8 @@ From EL Require Import Base.Dec Base.PyLib Gen.Serialize.
 Import ListNotations.
 Local Open Scope string_scope.
 
+Definition fn_key : string := "fn".
+
 Definition call_dict (f a k r : pyval) : pyval :=
   VDict [(VStr "fn", f); (VStr "args", a); (VStr "kwargs", k); (VStr "resource_dict", r)].
 
@@ -81,3 +83,29 @@ Example keygen_resources_matter :
   serialize_funct_h5 dumps get_hash (VStr "f") (VObj "f" 1) (VList []) (VDict []) (VDict [(VStr "cores", VInt 1)])
   <> serialize_funct_h5 dumps get_hash (VStr "f") (VObj "f" 1) (VList []) (VDict []) (VDict [(VStr "cores", VInt 2)]).
 Proof. vm_compute. discriminate. Qed.
+
+(* ---- file mode: which dictionary goes into the key (cache/shared.py:execute_tasks_h5, regenerated) ---- *)
+From EL Require Import Gen.CacheRes Gen.CacheKey.
+
+Ltac stepb :=
+  match goal with
+  | |- context [bind ?x _] =>
+      lazymatch x with Ok _ => fail | Err _ => fail | _ => idtac end;
+      destruct x eqn:?; cbn [bind]; try (intros; discriminate)
+  end.
+
+(* the resource dictionary hashed into the key of a file-mode call is the MERGED one (the call's own
+   entries, completed by the executor-level defaults - Gen.CacheRes.file_mode_resources, whose
+   content is C10_file_mode_merge), together with the call's function, converted arguments and
+   keyword arguments *)
+Theorem file_key_uses_merged_resources dumps get_hash name td rd a k m td' rd' f :
+  file_mode_resources td rd = Ok (VTuple [m; td'; rd']) ->
+  py_getitem td (VStr "fn") = Ok f ->
+  file_mode_key dumps get_hash name td rd a k
+  = (r <- serialize_funct_h5 dumps get_hash name f a k m ;;
+     '(key, data) <- py_unpack2 r ;; Ok (VTuple [key; data; m])).
+Proof.
+  unfold file_mode_key, file_mode_resources. intros H Hf. rewrite Hf. revert H.
+  do 4 stepb.
+  intros H. injection H as Em _ _. subst. reflexivity.
+Qed.
